@@ -28,3 +28,8 @@ Definition hit_green_only_github : bool := true.
 Definition hit_green_only_bitbucket : bool := true.
 (* github Repository.get_commit_status keeps a SUCCESSFUL entry when it refreshes the cache *)
 Definition keep_green_get_commit_status : bool := true.
+(* observed on the running code: an operation that waited for the host keeps a SUCCESSFUL entry recorded
+   meanwhile (check_suite handler / GitHub poll / Bitbucket poll) - harness/props/c17.py: probe_inflight *)
+Definition inflight_guard_check_suite : bool := true.
+Definition inflight_guard_poll_github : bool := true.
+Definition inflight_guard_poll_bitbucket : bool := true.
